@@ -37,10 +37,7 @@ def run_case(ctx, gd, q, via="outcomes"):
     n0 = kernel.LOG.counters.get("eval:are_d_separated", 0)
     res = None
     try:
-        if via == "outcomes":
-            res = identify_outcomes(g, X, Y, Z)
-        else:
-            res = idc(Identification(query=Query(outcomes=Y, treatments=X, conditions=Z), graph=g))
+        res = gq.call_id(g, q, "identify" if via == "idc" else via)
     except Exception:  # noqa: BLE001 -- judged by the on_raise monitor
         pass
     nsep = kernel.LOG.counters.get("eval:are_d_separated", 0) - n0
@@ -71,7 +68,7 @@ def run_shard(ctx):
                     q["Z"] = sorted(set(q["Z"]) | {z})
         hostile_seen[gd["hostile"]] = hostile_seen.get(gd["hostile"], 0) + 1
         qcls["X-empty" if not q["X"] else q["cls"]] = qcls.get("X-empty" if not q["X"] else q["cls"], 0) + 1
-        run_case(ctx, gd, q, via="outcomes" if i % 3 else "idc")
+        run_case(ctx, gd, q, via=rng.choice(gq.CALL_FORMS))
         if "id.line7" in kernel.tags():
             POOL.append((gd, q))
     # feedback: IDC cases whose trace reached ID's line 7 (rare) are kept and mutated
